@@ -154,7 +154,8 @@ func GateSpecs(c *Ctx, prop string) []GateSpec {
 		for _, f := range methodsOf(p, core.ModPath+"/pairing", "Suite", "ValidatePairing", "Pair") {
 			s = append(s, GateSpec{Func: f})
 		}
-		s = append(s, rets("pairing/bn256.optimalAte", "pairing/bn254.optimalAte")...)
+		// identity operands: every path on which an operand is the point at infinity passes SetOne
+		s = append(s, GateSpec{Func: "pairing/bn256.optimalAte", Block: `call:\.SetOne$`}, GateSpec{Func: "pairing/bn254.optimalAte", Block: `call:\.SetOne$`})
 	case "C19":
 		s = rets("(*xof/blake2xb.xof).XORKeyStream", "(*xof/blake2xs.xof).XORKeyStream", "(*xof/keccak.xof).XORKeyStream",
 			"(*util/random.randstream).XORKeyStream", "util/random.Int", "util/random.Bits")
